@@ -66,6 +66,18 @@ def run(ctx):
 
 
 def validate(ctx, traces):
+    clean = []
+    for t in traces:       # a recorded exception is a verdict by itself (the specified calls are total); the rest of the trace is still validated
+        evs = []
+        for e in t["events"]:
+            if e.get("exc"):
+                ctx.violation({"api": e["op"], "clause": e["op"] + ".raises", "features": {"cls": t.get("cls", ""), "n_nodes": len(t["nodes"])},
+                               "case": {"kind": "trace", "trace": t, "event_index": 0, "hashseed": t.get("hashseed", 0)},
+                               "observed": e["exc"], "expected": "an answer (see spec/DSep.tla)"})
+            else:
+                evs.append({k: v for k, v in e.items() if k != "exc"})
+        clean.append(dict(t, events=evs))
+    traces = clean
     tf = os.path.join(ctx.work, "trace_c08.json")
     with open(tf, "w") as f:
         json.dump(traces, f)
@@ -81,7 +93,7 @@ def validate(ctx, traces):
         if v["fails"]:
             e = t["events"][v["l"] - 1]
             for cl in v["fails"]:
-                ctx.violation({"api": e["op"], "clause": cl, "features": {"n_nodes": len(t["nodes"])},
+                ctx.violation({"api": e["op"], "clause": cl, "features": {"cls": t.get("cls", ""), "n_nodes": len(t["nodes"])},
                                "case": {"kind": "trace", "trace": t, "event_index": v["l"]},
                                "observed": e, "expected": "see spec/DSep.tla"})
         else:
@@ -121,6 +133,20 @@ def _build(case, rng, cls="DAG"):
     from pgmpy.models import BayesianNetwork
     from ..concretise import var_names, shuffled
     nm = var_names(case["nodes"], rng)
+    if cls == "NB":          # star-shaped case: NaiveBayes overrides the d-separation helpers
+        from pgmpy.models import NaiveBayes
+        dep = case["edges"][0][0]
+        feats = shuffled([v for _, v in case["edges"]], rng)
+        if rng.random() < 0.5:
+            g = NaiveBayes(feature_vars=[nm[f] for f in feats], dependent_var=nm[dep])
+        else:
+            g = NaiveBayes()
+            if rng.random() < 0.5:
+                g.add_edges_from([(nm[dep], nm[f]) for f in feats])
+            else:
+                for f in feats:
+                    g.add_edge(nm[dep], nm[f])
+        return g, nm, {v: k for k, v in nm.items()}
     C = DAG if cls == "DAG" else BayesianNetwork
     g = C()
     for n in shuffled(case["nodes"], rng):
@@ -242,32 +268,80 @@ def _rand_dag(rng, n):
     return {"nodes": nodes, "edges": edges, "latents": lat}
 
 
+def _nb_event(g, nm, inv, e, rng):
+    """one query on a NaiveBayes object (its own active_trail_nodes returns a set; the rest is inherited); exceptions are recorded"""
+    op = e["op"]
+    try:
+        if op == "active_trail":
+            obs = _obs_form(e["z"], nm, rng)
+            if isinstance(obs, tuple) or (obs is not None and not isinstance(obs, (list, set)) and isinstance(nm[e["x"]], tuple)):
+                obs = [nm[t] for t in e["z"]]        # a tuple is ambiguous with a tuple-valued node name
+            r = g.active_trail_nodes(nm[e["x"]], observed=obs) if obs is not None or rng.random() < 0.5 else g.active_trail_nodes(nm[e["x"]])
+            if not isinstance(r, set):
+                raise TypeError(f"NaiveBayes.active_trail_nodes returned {type(r).__name__}")
+            e["ret"] = sorted(inv[v] for v in r)
+        elif op == "is_dconnected":
+            e["ret"] = bool(g.is_dconnected(nm[e["x"]], nm[e["y"]], observed=[nm[t] for t in e["z"]]))
+        elif op == "minimal_dseparator":
+            r = g.minimal_dseparator(nm[e["x"]], nm[e["y"]])
+            e["none"] = r is None
+            e["ret"] = [] if r is None else sorted(inv[v] for v in r)
+        elif op == "markov_blanket":
+            e["ret"] = sorted(inv[v] for v in g.get_markov_blanket(nm[e["x"]]))
+        elif op == "local_independencies":
+            x = nm[e["x"]]
+            e["ret"] = [_trip(a, inv) for a in g.local_independencies([x] if rng.random() < 0.5 or isinstance(x, tuple) else x).get_assertions()]
+        elif op == "moralize":
+            mg = g.moralize()
+            e["ret"] = [sorted(inv[v] for v in ed) for ed in mg.edges()]
+            e["retnodes"] = sorted(inv[v] for v in mg.nodes())
+        elif op == "ancestral":
+            ag = g.get_ancestral_graph([nm[s] for s in e["z"]])
+            e["ret"] = [[inv[u], inv[v]] for u, v in ag.edges()]
+            e["retnodes"] = sorted(inv[v] for v in ag.nodes())
+        elif op == "get_independencies":
+            e["ret"] = [_trip(a, inv) for a in g.get_independencies(include_latents=e["incl"]).get_assertions()]
+    except Exception as ex:  # noqa
+        e["exc"] = repr(ex)[:300]
+    return e
+
+
 def record(payload):
     hs = int(os.environ.get("PYTHONHASHSEED", "0"))
     if "rerun" in payload:
         t = payload["rerun"]
-        specs = [({"nodes": t["nodes"], "edges": t["edges"], "latents": t["latents"]}, t["tid"], t["seed"], [
-            {k: e[k] for k in e if k not in ("ret", "retnodes", "none")} for e in t["events"]])]
+        specs = [({"nodes": t["nodes"], "edges": t["edges"], "latents": t["latents"], "cls": t.get("cls", "")}, t["tid"], t["seed"], [
+            {k: e[k] for k in e if k not in ("ret", "retnodes", "none", "exc")} for e in t["events"]])]
     else:
         rng0 = random.Random(payload["seed"])
         specs = []
         for i in range(payload["n"]):
-            specs.append((_rand_dag(rng0, rng0.choice([5, 6, 6, 7])), payload["tid0"] + i, rng0.randrange(10 ** 9), None))
+            if i % 6 == 5:       # NaiveBayes: a star over 2..7 nodes
+                k = rng0.randint(2, 7)
+                nodes = [f"v{j}" for j in range(k)]
+                dep = rng0.choice(nodes)
+                case = {"nodes": nodes, "edges": [[dep, v] for v in nodes if v != dep], "latents": [], "cls": "NB"}
+            else:
+                case = _rand_dag(rng0, rng0.choice([5, 6, 6, 7]))
+            specs.append((case, payload["tid0"] + i, rng0.randrange(10 ** 9), None))
     out = []
     for case, tid, seed, evs in specs:
         rng = random.Random(seed)
-        g, nm, inv = _build(case, rng, rng.choice(["DAG", "BN"]))
+        nb = case.get("cls") == "NB"
+        g, nm, inv = _build(case, rng, "NB" if nb else rng.choice(["DAG", "BN"]))
         nodes, lat = case["nodes"], set(case["latents"])
         if evs is None:
             evs = []
             for _ in range(10):
                 x = rng.choice(nodes)
                 z = [v for v in nodes if v != x and rng.random() < 0.35]
-                evs.append({"op": "active_trail", "x": x, "z": z, "incl": rng.random() < 0.5})
+                evs.append({"op": "active_trail", "x": x, "z": z, "incl": (not nb) and rng.random() < 0.5})
                 ys = [y for y in nodes if y != x and y not in z and y not in lat]
                 if ys:
                     evs.append({"op": "is_dconnected", "x": x, "y": rng.choice(ys), "z": z})
             for _ in range(4):
+                if len(nodes) < 2:
+                    break
                 x, y = rng.sample(nodes, 2)
                 if [x, y] not in case["edges"] and [y, x] not in case["edges"]:
                     evs.append({"op": "minimal_dseparator", "x": x, "y": y})
@@ -282,6 +356,10 @@ def record(payload):
         for e in evs:
             e = dict({"x": "", "y": "", "z": [], "incl": False, "none": False, "ret": [], "retnodes": []}, **e)
             op = e["op"]
+            if nb:
+                e = _nb_event(g, nm, inv, e, rng)
+                events.append(e)
+                continue
             if op == "active_trail":
                 r = g.active_trail_nodes(nm[e["x"]], observed=_obs_form(e["z"], nm, rng), include_latents=e["incl"])
                 e["ret"] = sorted(inv[v] for v in r[nm[e["x"]]])
@@ -306,5 +384,6 @@ def record(payload):
             elif op == "get_independencies":
                 e["ret"] = [_trip(a, inv) for a in g.get_independencies(include_latents=e["incl"]).get_assertions()]
             events.append(e)
-        out.append({"tid": tid, "seed": seed, "hashseed": hs, "nodes": nodes, "edges": case["edges"], "latents": case["latents"], "events": events})
+        out.append({"tid": tid, "seed": seed, "hashseed": hs, "nodes": nodes, "edges": case["edges"], "latents": case["latents"],
+                    "cls": case.get("cls", ""), "events": events})
     return {"traces": out}
